@@ -307,6 +307,30 @@ func (c *Ctx) c04Loops(rule string, fns []*ssa.Function, floor int) {
 					if x != nil {
 						if isInduction(x) && definedOutside(y, l) {
 							kind, why = "counting", "induction variable compared with a loop-invariant bound"
+						} else if dph, init, isDown := countDown(y, l); isDown && definedOutside(x, l) {
+							// counting down: v = phi(init, v - 1) compared from above with a loop-invariant bound
+							grows := false
+							for b := range l.Body {
+								for _, in := range b.Instrs {
+									if call, isCall := in.(*ssa.Call); isCall && core.BuiltinName(&call.Call) == "append" {
+										if _, isPhi := call.Call.Args[0].(*ssa.Phi); isPhi {
+											grows = true
+										}
+									}
+								}
+							}
+							if !grows {
+								kind, why = "counting", "counter decremented by one per iteration down to a loop-invariant bound"
+							} else {
+								lin := core.NewLin(c.P, fn, c.modSets(), sum)
+								t, off := lin.Expr(init)
+								if lin.Prove(dph.Block().Instrs[len(dph.Block().Instrs)-1], t, core.Zero, 65535-off) {
+									kind, why = "bounded growth", "appends one element per iteration of a count-down whose start is proved <= 65535: "+lin.Last
+								} else {
+									R.Fail(rule, key+":unbounded-growth", c.at(iff), "a loop that grows a slice is bounded by the protocol's 65535 limit", "the loop appends once per step of a count-down from "+describe(init)+", which is not provably <= 65535: client text can make it allocate without bound")
+									continue
+								}
+							}
 						} else if inner, isLen := core.IsLenOf(core.StripConv(x)); isLen && definedOutside(y, l) {
 							// x = len(s) grows by one per iteration: s = phi(s0, append(s, ..))
 							if ph, isPhi := inner.(*ssa.Phi); isPhi && l.Body[ph.Block()] {
@@ -319,7 +343,18 @@ func (c *Ctx) c04Loops(rule string, fns []*ssa.Function, floor int) {
 								if grows {
 									lin := core.NewLin(c.P, fn, c.modSets(), sum)
 									t, off := lin.Expr(y)
-									if lin.Prove(h.Instrs[len(h.Instrs)-1], t, core.Zero, 65535-off) {
+									proved := lin.Prove(h.Instrs[len(h.Instrs)-1], t, core.Zero, 65535-off)
+									if !proved {
+										// a private helper with one caller: the bound may be established at the call
+										if site := c.onlyCaller(fn); site != nil {
+											lin = core.NewLin(c.P, fn, c.modSets(), sum)
+											if lin.ImportCallContext(core.NewLin(c.P, site.Parent(), c.modSets(), sum), site) > 0 {
+												t, off = lin.Expr(y)
+												proved = lin.Prove(h.Instrs[len(h.Instrs)-1], t, core.Zero, 65535-off)
+											}
+										}
+									}
+									if proved {
 										kind, why = "bounded growth", "appends one element per iteration up to a bound proved <= 65535: "+lin.Last
 									} else {
 										R.Fail(rule, key+":unbounded-growth", c.at(iff), "a loop that grows a slice is bounded by the protocol's 65535 limit", "the loop appends until len reaches "+describe(y)+", which is not provably <= 65535: client text can make it allocate without bound")
@@ -653,4 +688,28 @@ func paramOrConst(v ssa.Value, p *ssa.Parameter, depth int) bool {
 		}
 	}
 	return false
+}
+
+// countDown recognises v = phi(init, v - 1) at the header of loop l.
+func countDown(v ssa.Value, l *core.Loop) (*ssa.Phi, ssa.Value, bool) {
+	ph, ok := core.StripConv(v).(*ssa.Phi)
+	if !ok || ph.Block() != l.Header {
+		return nil, nil, false
+	}
+	var init ssa.Value
+	step := false
+	for i, e := range ph.Edges {
+		if !l.Body[ph.Block().Preds[i]] {
+			init = e
+			continue
+		}
+		if b, isB := e.(*ssa.BinOp); isB && b.Op == token.SUB && b.X == ssa.Value(ph) {
+			if one, isK := core.ConstInt(b.Y); isK && one == 1 {
+				step = true
+				continue
+			}
+		}
+		return nil, nil, false
+	}
+	return ph, init, init != nil && step
 }
